@@ -1,7 +1,7 @@
 """C11 - The greedy rewrite driver reaches a fixpoint and observes every IR change.
 
 The real PatternRewriteWalker / GreedyRewritePatternApplier / PatternRewriter / Worklist / listener plumbing run on
-generated modules with a library of 26 terminating patterns; a monitoring pattern wraps the real pattern and produces
+generated modules with a library of 29 terminating patterns; a monitoring pattern wraps the real pattern and produces
 one record per invocation {before snapshot, after snapshot, listener events, flag}, which is decided offline against
 (A) a per-rewriter-call notification specification and (B) an identity/canon diff of the region (xv/c11_lib.py).
 Schedules: the walker's `_worklist` is substituted by a subclass whose pop returns a random present element with
@@ -13,7 +13,7 @@ from xv.harness import shash
 ID = "C11"
 LEVEL = "exploration"
 RULE = ("one case = generated module of tagged test/arith ops (nested regions, multi-block regions, block arguments) x "
-        "random subset of 26 terminating pattern kinds (incl. multi-call matches ending in a call that changes nothing) x one of 8 walker configurations x {bare pattern, applier, "
+        "random subset of 29 terminating pattern kinds (incl. multi-call matches ending in a call that changes nothing, ops built under ImplicitBuilder(rewriter), inserts with rewriter.name_hint set) x one of 8 walker configurations x {bare pattern, applier, "
         "applier+dce, applier+folding, applier+dce+folding} x worklist perturbation p in {0, 0.3, 1} x post_walk_func in "
         "{none, region_dce, mutating test hook, no-op hook} (with unreachable blocks / dead ops and, in 45% of the hook "
         "cases, a pattern set that never matches); non-trivial = >= 3 "
